@@ -94,7 +94,13 @@ def body_nearest(case):
     hull = _hull(P)
     eq = hull.equations
     B0, eq0 = B.copy(), eq.copy()
-    with calling("proj_B_to_hull"):
+    ro = int(abs(float(B.sum())) * 1e6) % 3 == 0
+    if ro:
+        # read-only arrays (a broadcast view, a memory map, a pandas copy-on-write block): inputs are only read
+        eq = eq.copy()
+        B.setflags(write=False)
+        eq.setflags(write=False)
+    with calling("proj_B_to_hull" + (" (read-only inputs)" if ro else "")):
         Y = np.asarray(dreye.proj_B_to_hull(B, eq))
     check(np.array_equal(B, B0) and np.array_equal(eq, eq0), "nearest:input-modified", "inputs modified")
     check(Y.shape == B.shape, "nearest:shape", f"{Y.shape}")
@@ -154,6 +160,11 @@ def body_hit(case):
     eq = hull.equations
     if float(np.max(eq[:, -1])) > -1e-6 * float(np.max(P.max(0) - P.min(0))):
         return ["origin-not-interior-skipped"]
+    if int(abs(float(B.sum())) * 1e6) % 3 == 0:
+        B = B.copy()
+        eq = eq.copy()
+        B.setflags(write=False)
+        eq.setflags(write=False)
     with calling("alpha_for_B_with_P / B_with_P"):
         with np.errstate(all="ignore"):
             alpha = np.asarray(dreye.alpha_for_B_with_P(B, eq))
